@@ -137,6 +137,27 @@ fn chk_lookup_outside(asy: bool, z: u8, x: u64, y: u64) -> Result<(), String> {
     }
     // what the unguarded computation would address (wrapping arithmetic)
     ids.push(ref_tile_id(zz, 0, 0).wrapping_add(x & mask));
+    if z == 32 && (x >> 32) == 0 && (y >> 32) == 0 {
+        // the reference algorithm carried one zoom too far, in 128-bit arithmetic, truncated as u64 arithmetic would
+        let (mut tx, mut ty) = (u128::from(x), u128::from(y));
+        let n: u128 = 1 << 32;
+        let mut d: u128 = 0;
+        let mut sft = n / 2;
+        while sft > 0 {
+            let rx = u128::from((tx & sft) > 0);
+            let ry = u128::from((ty & sft) > 0);
+            d += sft * sft * ((3 * rx) ^ ry);
+            if ry == 0 {
+                if rx == 1 {
+                    tx = n - 1 - tx;
+                    ty = n - 1 - ty;
+                }
+                std::mem::swap(&mut tx, &mut ty);
+            }
+            sft /= 2;
+        }
+        ids.push((u128::from(BASE32) + d) as u64);
+    }
     for id in ids {
         let r = match &mut st {
             St::S(p) => p.add_tile(id, vec![(id % 251) as u8 + 1, 7]),
@@ -239,6 +260,12 @@ pub fn gen_c07(rng: &mut Rng, quick: bool, st: &mut Stats) -> Vec<String> {
         outside.push((z, 0, u64::MAX));
         outside.push((z, u64::MAX, u64::MAX));
         outside.push((z, 5, 3));
+        if z >= 32 {
+            // coordinates that would fit a 2^32 grid: zoom 32 itself is outside the id space
+            for (x, y) in [(0u64, 0u64), (u64::from(u32::MAX), 0), (0, u64::from(u32::MAX)), (u64::from(u32::MAX), u64::from(u32::MAX)), (rng.next() >> 32, rng.next() >> 32), (rng.next() >> 33, rng.next() >> 40)] {
+                outside.push((z, x, y));
+            }
+        }
         outside.push((z, rng.next(), rng.next()));
         outside.push((z, n | rng.below(n.max(1)), rng.below(n.max(1))));
         outside.push((z, rng.below(n.max(1)), n | rng.below(n.max(1))));
